@@ -149,8 +149,10 @@ def project(ops, obs, mode):
     for t, g in enumerate(obs):
         op = ops[t] if t < len(ops) else ('?',)
         if op[0] == 'heap' and g and g[0].startswith('v='):
+            # used bytes per callback as a multiset: the ORDER in which a region invokes the callback for its parts is
+            # not something any property speaks about (C17 pairs needs with capacities by position in its own loop)
             v = gen.parse(g[0][2:])
-            out.append(['v=' + gen.show([p[0] if isinstance(p, list) else p for p in v])]); continue
+            out.append(['v=' + gen.show(sorted(p[0] if isinstance(p, list) else p for p in v))]); continue
         if op[0] in ('resitems', 'resregs', 'merge', 'allocs') and g and (g[0] == '-' or g[0].startswith('v=')):
             out.append(['-']); continue
         if op[0] == 'serde' and mode != 'state':
@@ -1001,9 +1003,9 @@ def run_ic_cases(ctx, res, cases, cost_oracle=False):
             def strip(o):
                 if o.startswith('[') and kind != 'stride':
                     v = gen.parse(o)
-                    if len(v) >= 7: return gen.show(v[:6])
+                    if len(v) >= 6 and isinstance(v[5], list): return gen.show(v[:5] + [sorted(v[5])])
                 return o
-            pi = [strip(o) for o in io]
+            pi = [strip(o) for o in io]; mo = [strip(o) for o in mo]
             if pi != mo:
                 t = next((i for i in range(max(len(pi), len(mo))) if i >= len(pi) or i >= len(mo) or pi[i] != mo[i]), 0)
                 res.corr.append({'kind': 'index-container', 'entry': kind, 'profile': prof, 'history': ostr,
@@ -1052,7 +1054,7 @@ def ic_oracle(kind, ops, obs, cost):
                     if v[8] != ('S', l[1::2]): return f'op {t}: iter(); next(); step_by(2) yields {gen.show(v[8])} for {[hex(x) for x in l]}'
                 if cost:
                     want = {'vec': [8 * len(l)], 'ilist': ilist_cost(l), 'iopt': iopt_cost(l)}[kind]
-                    if v[5] != want: return f'op {t}: heap_size used {v[5]} but the documented rule gives {want} for {[hex(x) for x in l]}'
+                    if sorted(v[5]) != sorted(want): return f'op {t}: heap_size used {v[5]} but the documented rule gives {want} for {[hex(x) for x in l]}'
                     if kind == 'iopt' and want != [0, 0]: spilled_ever = True
                     if kind == 'iopt' and not spilled_ever and v[6] != [0, 0]:
                         return f'op {t}: a purely strided sequence holds capacity {v[6]}'
@@ -1253,9 +1255,10 @@ def run_fs_cases(ctx, res, cases, index_free_names=()):
                 # the model predicts everything but the size-hint flag and the capacities
                 if x.startswith('['):
                     v = gen.parse(x)
-                    if len(v) == 10: return gen.show(v[:7] + [v[9]])
+                    if len(v) == 10: return gen.show(v[:6] + [sorted(v[6]), sorted(v[9])])
+                    if len(v) == 8: return gen.show(v[:6] + [sorted(v[6]), sorted(v[7])])   # the model's observation
                 return x
-            pi = [strip(x) for x in io]
+            pi = [strip(x) for x in io]; mo = [strip(x) for x in mo]
             if pi != mo:
                 t = next((i for i in range(max(len(pi), len(mo))) if i >= len(pi) or i >= len(mo) or pi[i] != mo[i]), 0)
                 res.corr.append({'kind': 'flatstack', 'entry': name, 'profile': prof, 'history': [fs_op_str(x) for x in ops],
@@ -1539,7 +1542,8 @@ def c17(ctx):
                 for t, op in enumerate(ops):
                     if op[0] in ('resitems', 'resregs', 'merge') and t + 1 < len(io) and ops[t + 1][0] == 'heap' and mo[t] and mo[t][0].startswith('v='):
                         need = gen.parse(mo[t][0][2:]); caps = [p[1] for p in gen.parse(io[t + 1][0][2:])]
-                        if len(need) != len(caps) or any(a > b for a, b in zip(need, caps)):
+                        # (paired after sorting: the order of the heap_size callbacks is not the property's business)
+                        if len(need) != len(caps) or any(a > b for a, b in zip(sorted(need), sorted(caps))):
                             bad = {'kind': 'reserved-capacity-covers-model-need', 'first_difference_at_op': t, 'need': need, 'caps': caps}
                             # this is also a concrete failing input for the property
                             break
